@@ -329,6 +329,7 @@ def run(ck: common.Check):
                 observable=True, describe=lambda c: key_of(c), classes=classes)
     oracle_generic(ck, rng, 40 if ck.tier == "quick" else 600)
     oracle_batch_interleaved(ck, np.random.default_rng(ck.seed + 20202), 6 if ck.tier == "quick" else 60)
+    oracle_exact_block_scales(ck, np.random.default_rng(ck.seed + 20302), 14 if ck.tier == "quick" else 140)
 
 
 def oracle_generic(ck, rng, n):
@@ -404,6 +405,14 @@ def oracle_batch_interleaved(ck, rng, n):
             got = {"asnumpy": np.asarray(ld.asnumpy()), "construct_dask": np.asarray(ld.construct_dask().compute()),
                    "load_iter": np.stack([np.asarray(x) for x in ld.load_iter()]), "load": np.stack([np.asarray(ld.load(i)) for i in range(len(want))]),
                    "load(list)": np.asarray(ld.load(list(range(len(want)))))}
+            rev = list(range(len(want)))[::-1] + [0, len(want) - 1, 0]
+            arr_ = np.asarray(ld.load(rev))
+            if arr_.shape != (len(rev),) + shape or any(not np.allclose(arr_[i_], want[j_][2], atol=1e-4) for i_, j_ in enumerate(rev)):
+                bad.append(f"load({rev}): the sub-volumes are not those of the listed molecules, in the listed order and multiplicity")
+            tup = tuple(rev[:2])
+            arr_ = np.asarray(ld.load(tup))
+            if arr_.shape != (2,) + shape or any(not np.allclose(arr_[i_], want[j_][2], atol=1e-4) for i_, j_ in enumerate(tup)):
+                bad.append(f"load({tup}): the sub-volumes are not those of the listed molecules")
             for name, arr in got.items():
                 if arr.shape != (len(want),) + shape:
                     bad.append(f"{name}: shape {arr.shape}")
@@ -417,6 +426,37 @@ def oracle_batch_interleaved(ck, rng, n):
         if bad:
             ck.violation(what="batch loader with a permuted molecule table: " + "; ".join(bad[:3]), inp=info, key={"site": "batch-interleaved", "symptom": bad[0].split(":")[0]},
                          oracle="batch_interleaved_load")
+
+
+def oracle_exact_block_scales(ck, rng, n):
+    """identity orientation, integer pixel position, odd box: exactly the corresponding block of the tomogram, at pixel sizes for which
+    pos / scale is not exactly representable (1.35, 0.37, 2.6, 0.262, ...), for every order and both cropping modes"""
+    from acryo import SubtomogramLoader, Molecules
+    t = rng.integers(0, 200, size=(21, 22, 23)).astype(np.float32)
+    for it in range(n):
+        scale = float([1.35, 0.37, 2.6, 0.262, 1.1, 0.7, 3.3][it % 7])
+        shape = tuple(int(x) for x in rng.choice([1, 3, 5, 7], size=3))
+        order = [1, 3][it % 2]; cs = bool((it // 2) % 2)      # (order 0 at positions just above an integer is the recorded finding C02-order0-crop-one-short)
+        nm = 5
+        cpx = np.stack([rng.integers(6, d - 6, size=nm) for d in t.shape], axis=1)
+        mol = Molecules((cpx * scale).astype(np.float32))
+        info = {"scale": scale, "shape": list(shape), "order": order, "corner_safe": cs, "centers_px": cpx.tolist(), "seed": ck.seed}
+        ck.oracle_count("exact_block_awkward_scales", 1, 1)
+        try:
+            got = np.asarray(SubtomogramLoader(t, mol, order=order, scale=scale, output_shape=shape, corner_safe=cs).asnumpy())
+            bad = []
+            for j in range(nm):
+                sl = tuple(slice(int(c - (s_ - 1) // 2), int(c + (s_ - 1) // 2 + 1)) for c, s_ in zip(cpx[j], shape))
+                # float32 positions: pos / scale is within 1e-5 px of the integer, so orders 1 and 3 may differ from the block by interpolation of that
+                # offset (<= 1e-5 x the local contrast); a block displaced by a whole voxel differs by tens of grey levels
+                if got[j].shape != shape or np.abs(got[j] - t[sl]).max() > (0.05 if order else 0.0):
+                    bad.append(j)
+            detail = f"sub-volumes {bad} are not the blocks of the tomogram around their molecules (max deviation {max(float(np.abs(got[j] - t[tuple(slice(int(c - (s_ - 1) // 2), int(c + (s_ - 1) // 2 + 1)) for c, s_ in zip(cpx[j], shape))]).max()) for j in bad):.1f})" if bad else ""
+        except Exception as e:  # noqa
+            detail = f"raised {type(e).__name__}: {e}"
+        if detail:
+            ck.violation(what=f"identity orientation, integer pixel position, odd box at {scale} nm/px (order {order}, corner_safe {cs}): {detail}", inp=info,
+                         key={"site": "exact-block-scale", "order0": order == 0}, oracle="exact_block_awkward_scales")
 
 
 def replay(data):
